@@ -623,3 +623,5 @@ def run(report, repo):
   report.guard(_e4.read_until_close_drains, report, repo, 'C15-R10')
   from sa.rules import extra5 as _e5c  # pylint: disable=g-import-not-at-top
   report.guard(_e5c.read_until_filters_only_by_command, report, repo, 'C15-R11')
+  from sa.rules import extra5 as _e6b  # pylint: disable=g-import-not-at-top
+  report.guard(_e6b.connection_keeps_device_maxdata, report, repo, 'C15-R12')
